@@ -487,9 +487,12 @@ class Spline(BaseGridder):
         shape = np.broadcast(*coordinates[:2]).shape
         force_east, force_north = n_1d_arrays(self.force_coords_, n=2)
         east, north = n_1d_arrays(coordinates, n=2)
-        # Use a floating point type for the predictions even if the
-        # coordinates are integers
-        dtype = np.result_type(east.dtype, "float32")
+        # Calculate in floating point even if the coordinates are integers
+        # (narrow integer types would overflow or lose precision)
+        east, north = (
+            i if i.dtype.kind == "f" else i.astype("float64") for i in (east, north)
+        )
+        dtype = east.dtype
         data = np.empty(east.size, dtype=dtype)
         if parse_engine(self.engine) == "numba":
             data = predict_numba(
@@ -529,6 +532,11 @@ class Spline(BaseGridder):
         """
         force_east, force_north = n_1d_arrays(force_coords, n=2)
         east, north = n_1d_arrays(coordinates, n=2)
+        # Calculate in floating point even if the coordinates are integers
+        # (narrow integer types would overflow or lose precision)
+        east, north = (
+            i if i.dtype.kind == "f" else i.astype("float64") for i in (east, north)
+        )
         jac = np.empty((east.size, force_east.size), dtype=dtype)
         if parse_engine(self.engine) == "numba":
             jac = jacobian_numba(
